@@ -1,4 +1,4 @@
-(* GENERATED on every run by /verif/harness/cmd/translate from preprocess/structure.go (MakeSystemOfEquations)
+(* GENERATED on every run by /verif/harness/cmd/translate from preprocess/structure.go (MakeSystemOfEquations, addDispConstraints)
    and preprocess/element.go (setEquationTerms, addTermsToStiffnessMatrix, addTermsToLoadVector) — never edited by hand. *)
 From Coq Require Import List.
 Import ListNotations.
@@ -10,6 +10,11 @@ Definition asm_slice_numbers (t l : nat * nat * nat) : list nat :=
 (* the entries of the load vector a node's net load (global axes) is added to: d the numbers of the node *)
 Definition asm_load_terms {F : Type} (d : nat * nat * nat) (fx fy mz : F) : list (nat * F) :=
   [(fst (fst d), fx); (snd (fst d), fy); (snd d, mz)].
+
+(* the numbers of a supported node that get the trivial equation x = 0 (zero column, identity row, zero load):
+   dx dy rz say which components the support holds, d the numbers of the node *)
+Definition asm_supported_numbers (dx dy rz : bool) (d : nat * nat * nat) : list nat :=
+  (if dx then [fst (fst d)] else []) ++ (if dy then [snd (fst d)] else []) ++ (if rz then [snd d] else []).
 
 (* MakeSystemOfEquations: every bar in turn (its stiffness terms, then its load terms), then the trivial equation for
    the numbers no bar refers to, then the supports — plain loops, nothing started concurrently (checked on the syntax tree) *)
